@@ -109,8 +109,8 @@ def run_workers_with_retry(prop, cases, timeout, per_case_process, shards_per_wo
     results, faults = run_workers(prop, cases, timeout, per_case_process, shards_per_worker)
     retried = 0
     for _attempt in range(2):
-        if not faults:
-            break
+        if not faults or any(f["state"] == "watchdog" for f in faults):
+            break  # a hang is not a crash: re-running the shard's cases would only wait for the watchdog again
         done = {r["id"] for r in results}
         missing = [c for c in cases if c["id"] not in done]
         if not missing or len(missing) > max(8, len(cases) // 4):
